@@ -499,6 +499,11 @@ func TestCheck(t *testing.T) {
 		concurrentPart(run)
 		return
 	}
+	if os.Getenv("VERIF_PART") == "chain" {
+		run.Assume("chain part: balances and on-chain facts are read from the node's own ledger through exported getters right after AddBlock returned")
+		chainPart(t, run)
+		return
+	}
 	nseq := ev.Pick(4000, 100000)
 	nops := ev.Pick(40, 60)
 	var wg sync.WaitGroup
